@@ -7,7 +7,7 @@ Phase-3 additions to the hand model of `spsdk/utils/misc.py`, `spsdk/sbfile/misc
   * `value_to_bytes` on every source type, `extend_block` with an integer padding, `find_first`
   * `SpsdkSoftEnum` lookups (never fail: an unknown tag yields a synthetic `UNKNOWN` member)
   * `size_fmt` on integers (exact arithmetic; the implementation divides floats)
-  * `BcdVersion3.from_str` / `__str__` at full strength (`str.split(".")`, Python `int(text, 16)`)
+  * `BcdVersion3.from_str` / `__str__` at full strength (`str.split(".")`, validated component, base-16 value)
   * `SecBootBlckSize.align_block_fill_zeros`
   * the FILE branch of `load_hex_string` over an abstract file content
 
@@ -75,8 +75,8 @@ inductive ValSrc where
   | str (s : List Char)
   deriving Repr, DecidableEq
 
-/-- bytes are returned unchanged (whatever `byte_cnt` says); a string goes through `value_to_int`; a NEGATIVE int never
-    returns (`get_bytes_cnt_of_int` loops) — the model answers `.error .other` there.  `byte_cnt`: `None`/`0` = not given;
+/-- bytes are returned unchanged (whatever `byte_cnt` says); a string goes through `value_to_int`; a NEGATIVE int is
+    refused with an SPSDK error (fix 55a6c57; it never returned before).  `byte_cnt`: `None`/`0` = not given;
     a negative one is refused (SPSDK error) unless the value is 0, where `to_bytes(-n)` is a `ValueError`. -/
 def valueToBytesAny (src : ValSrc) (a2n : Bool) (bc : Option Int) (little : Bool) : PyRes Bytes :=
   let ofNat (v : Nat) : PyRes Bytes :=
@@ -84,7 +84,7 @@ def valueToBytesAny (src : ValSrc) (a2n : Bool) (bc : Option Int) (little : Bool
     if c < 0 then (if v = 0 then .error .other else .error .spsdk) else valueToBytes v a2n c.toNat little
   match src with
   | .bytes b => .ok b
-  | .int v => if v < 0 then .error .other else ofNat v.toNat
+  | .int v => if v < 0 then .error .spsdk else ofNat v.toNat
   | .str s => match valueToInt s with
     | none => .error .spsdk
     | some v => ofNat v
@@ -168,42 +168,20 @@ def splitOn (sep : Char) : List Char → List (List Char)
       | g :: gs => (c :: g) :: gs
       | [] => [[c]]
 
-/-- C `isspace` (what `int()` strips from an ASCII string; `\x1c`–`\x1f` are NOT included, unlike `str.strip()`) -/
-def isWsC (c : Char) : Bool := c == ' ' || (9 ≤ c.toNat && c.toNat ≤ 13)
-def stripC (s : List Char) : List Char := ((s.dropWhile isWsC).reverse.dropWhile isWsC).reverse
+/-- `_num_from_str` (after fix 619e9e1): generated length guard (1..4 characters), every character from the GENERATED
+    alphabet of the `char not in "…"` test (hex digits of either case), then `int(text, 16)` — on such a text simply its
+    base-16 value — and the generated `_check_number`.  Every refusal is an SPSDK error. -/
+def hexTextValue (text : List Char) : Nat := text.foldl (fun acc c => acc * 16 + digitVal (lowerCh c)) 0
 
-/-- Python `int(text, 16)` on ASCII text: surrounding whitespace, one sign, an optional `0x`/`0X` (then one optional `_`),
-    hex digits of either case with single interior underscores; `none` = `ValueError` -/
-def signSplit : List Char → Bool × List Char
-  | '-' :: r => (true, r)
-  | '+' :: r => (false, r)
-  | r => (false, r)
-
-def dropHexPrefix : List Char → List Char
-  | '0' :: 'x' :: '_' :: r => r
-  | '0' :: 'x' :: r => r
-  | r => r
-
-def hexBodyValue : List Char → Option Nat
-  | [] => none
-  | '_' :: _ => none
-  | c :: r => digitsValue 16 (c :: r) false 0
-
-def pyIntHex (t : List Char) : Option Int :=
-  let ns := signSplit (stripC t)
-  (hexBodyValue (dropHexPrefix (ns.2.map lowerCh))).map (fun v => if ns.1 then -(v : Int) else (v : Int))
-
-/-- `_num_from_str`: generated length guard, `int(text, 16)`, generated `_check_number` -/
 def bcdNumFromStr (text : List Char) : PyRes Nat :=
   match Generated.PyFuns3.bcdNumFromStrGuard text.length with
   | .error e => .error e
   | .ok _ =>
-    match pyIntHex text with
-    | none => .error .other
-    | some v =>
-      match Generated.PyFuns2.bcdCheckNumber v with
+    if text.all (fun c => Generated.Misc3Tables.bcdNumAlphabet.contains c) then
+      match Generated.PyFuns2.bcdCheckNumber (hexTextValue text : Nat) with
       | .error e => .error e
-      | .ok _ => .ok v.toNat
+      | .ok _ => .ok (hexTextValue text)
+    else .error .spsdk
 
 /-- `BcdVersion3.from_str(text)` → `(major, minor, service)` -/
 def bcdFromStr (text : List Char) : PyRes (Nat × Nat × Nat) :=
